@@ -522,7 +522,14 @@ func (pool *hostConnPool) fillingStopped(err error) {
 	pool.filling = false
 	count := len(pool.conns)
 	host := pool.host
+	short := err == nil && !pool.closed && count < pool.size
 	pool.mu.Unlock()
+
+	if short {
+		// a connection was lost while this fill was under way: the fill its loss
+		// asked for found this one running and gave up
+		go pool.fill()
+	}
 
 	// if we errored and the size is now zero, make sure the host is marked as down
 	// see https://github.com/apache/cassandra-gocql-driver/issues/1614
